@@ -157,7 +157,7 @@ def run(ctx):
                                env=dict(os.environ, PYTHONPATH="/repo/src", LOGLEVEL="CRITICAL"))
             cli_runs += 1
             ctx.count(("cli", name, tuple(flags)), True, "cli")
-            why = check_report(r.stdout, csvp)
+            why = check_report(r.stdout, csvp) or listing_vs_list(geo.corpus(name), flags, r.stdout, csvp)
             _report_cases(r.stdout, {"file": name, "flags": flags}, rep_expr, rep_exp, rep_case)
             if r.returncode != 0:
                 why = why or f"clashfinder exited with {r.returncode}: {r.stderr[-300:]}"
@@ -183,7 +183,7 @@ def run(ctx):
     r = subprocess.run([PY, "-m", "rnapolis.clashfinder", synth, "--ignore-occupancy", "--csv", csvs], capture_output=True, text=True,
                        env=dict(os.environ, PYTHONPATH="/repo/src", LOGLEVEL="CRITICAL"))
     ctx.count(("cli", "synth"), True, "cli")
-    why = check_report(r.stdout, csvs)
+    why = check_report(r.stdout, csvs) or listing_vs_list(synth, ["--ignore-occupancy"], r.stdout, csvs)
     _report_cases(r.stdout, {"file": "synthetic two-chain file", "flags": ["--ignore-occupancy"]}, rep_expr, rep_exp, rep_case)
     if why or "A.A1" not in r.stdout:
         ctx.violation(why or "synthetic two-chain file: no report", {"file": open(synth).read(), "flags": ["--ignore-occupancy"], "stdout": r.stdout})
@@ -205,6 +205,31 @@ def run(ctx):
     ctx.coverage["report_aggregations_compared"] = len(rep_expr)
     ctx.coverage["structures_compared"] = len(corr_expr)
     ctx.coverage["option_sets"] = 32
+
+
+def listing_vs_list(path, flags, stdout, csvp):
+    """the printed listing and the CSV against the clash list itself: the same unordered pairs of (residue, atom name), each with its
+    occupancy sum, each as often as the list holds it (grouping is a rearrangement: Props C17_grouped_listing)"""
+    from collections import Counter
+    from rnapolis.clashfinder import find_clashes
+    from rnapolis.parser import read_3d_structure
+    with open(path) as f:
+        s3 = read_3d_structure(f, 1)
+    res = find_clashes(s3.residues, "--ignore-occupancy" in flags, "--ignore-autoclashes" in flags, "--nucleic-acid-only" in flags,
+                       "--require-same-atom-name" in flags, "--enable-molprobity-mode" in flags)
+    want = Counter(tuple(sorted([(str(ri), ai.name), (str(rj), aj.name)])) + (round(float(occ), 9),) for (ri, ai), (rj, aj), occ in res)
+    _, _, atoms = _parse_report(stdout)
+    got = Counter(tuple(sorted([(a[1][1][0], a[2]), (a[1][1][1], a[3])])) + (round(a[4], 9),) for a in atoms)
+    # the set() of one residue pair merges clashes of equally named atoms with equal occupancy sums (alternate locations): compare supports
+    if set(got) != set(want):
+        only_l, only_r = sorted(set(got) - set(want))[:3], sorted(set(want) - set(got))[:3]
+        return f"the printed listing names clashes {only_l} that the clash list does not hold, and misses {only_r}"
+    if csvp is not None and atoms and os.path.exists(csvp):
+        rows = list(csv.reader(open(csvp)))[1:]
+        gotc = {tuple(sorted([tuple(r[3].rsplit(" ", 1)), tuple(r[4].rsplit(" ", 1))])) + (round(float(r[5]), 9),) for r in rows}
+        if gotc != set(want):
+            return f"the CSV names clashes {sorted(gotc - set(want))[:3]} that the clash list does not hold, and misses {sorted(set(want) - gotc)[:3]}"
+    return None
 
 
 def _parse_report(stdout):
